@@ -1,4 +1,5 @@
 use crate::error::Converter;
+use crate::error::WRONG_OFFSET;
 use crate::paged_reader::PagedReader;
 use crate::root::root_from_document;
 use crate::root::Root;
@@ -42,6 +43,13 @@ impl<T: Read + Seek> E57Reader<T> {
         // Set up paged reader for the CRC page layer
         let mut reader = PagedReader::new(reader, header.page_size)
             .read_err("Failed creating paged CRC reader")?;
+
+        // The header above was read without checksum validation.
+        // Read it again through the CRC layer to detect a corrupted header.
+        reader
+            .seek_physical(0)
+            .read_err("Cannot seek to file header")?;
+        let header = Header::read(&mut reader)?;
 
         // Read and parse XML data
         let xml_raw = Self::extract_xml(
@@ -174,12 +182,21 @@ impl<T: Read + Seek> E57Reader<T> {
     /// validation than basic CRC ckecking for the XML section itself.
     pub fn raw_xml(mut reader: T) -> Result<Vec<u8>> {
         let page_size = Self::get_u64(&mut reader, 40, "page size")?;
-        let xml_offset = Self::get_u64(&mut reader, 24, "XML offset")?;
-        let xml_length = Self::get_u64(&mut reader, 32, "XML length")?;
 
         // Create paged CRC reader
         let mut paged_reader =
             PagedReader::new(reader, page_size).read_err("Failed creating paged CRC reader")?;
+
+        // Read XML offset and length through the CRC layer to detect a corrupted header
+        paged_reader
+            .seek_physical(24)
+            .read_err("Cannot seek to XML offset in file header")?;
+        let mut buf = [0_u8; 16];
+        paged_reader
+            .read_exact(&mut buf)
+            .read_err("Cannot read XML offset and length from file header")?;
+        let xml_offset = u64::from_le_bytes(buf[..8].try_into().internal_err(WRONG_OFFSET)?);
+        let xml_length = u64::from_le_bytes(buf[8..].try_into().internal_err(WRONG_OFFSET)?);
 
         // Read XML data
         Self::extract_xml(&mut paged_reader, xml_offset, xml_length as usize)
